@@ -31,6 +31,9 @@ fn run(ctx: &RunCtx) -> Report {
         latency_max_us: rng.range(2_000, 60_000),
         corrupt_ppm: if rng.chance(1, 3) { rng.range(20_000, 150_000) as u32 } else { 0 },
         dup_ppm: if rng.chance(1, 4) { 50_000 } else { 0 },
+        // replies that arrive late (beyond the 500 ms the RTT estimator starts at) are unexpected too
+        slow_ppm: if rng.chance(1, 3) { rng.range(50_000, 400_000) as u32 } else { 0 },
+        slow_extra_ms: (300, 1500),
         ..NetCfg::default()
     };
     let sim = Sim::new(ctx.seed, net.clone());
@@ -56,6 +59,14 @@ fn run(ctx: &RunCtx) -> Report {
         p.mutable.insert(item.target(), item.clone());
         p.signed.insert(info_hash, vec![ann]);
         p.peers.insert(info_hash, vec![SocketAddrV4::new(priv_ip(999), 1000)]);
+        // scripted peers answer writes with assorted error codes, and some answer slowly
+        p.put_reply = match rng.below(5) {
+            0 | 1 => PutReply::Ack,
+            _ => PutReply::Error(*rng.pick(&[203i64, 205, 206, 301, 302, 999])),
+        };
+        if rng.chance(1, 3) {
+            p.delay = rng.range(300, 1400) * MS;
+        }
         rawnet.add(&sim, p);
         addrs.push(addr);
     }
